@@ -35,6 +35,7 @@ import (
 	"fmt"
 	"io/ioutil"
 	"path/filepath"
+	"strings"
 
 	"github.com/pborman/uuid"
 	"gitlab.com/aquachain/aquachain/common"
@@ -199,10 +200,18 @@ func DecryptKey(keyjson []byte, auth string) (*Key, error) {
 		return nil, err
 	}
 	key := crypto.ToECDSAUnsafe(keyBytes)
+	addr := crypto.PubkeyToAddress(key.PubKey())
+	// The MAC covers the ciphertext only: a damaged IV passes it and decrypts to
+	// a different key. The address recorded in the file gives that away.
+	if stored, ok := m["address"].(string); ok && stored != "" {
+		if !strings.EqualFold(strings.TrimPrefix(stored, "0x"), hex.EncodeToString(addr[:])) {
+			return nil, fmt.Errorf("key file content mismatch: decrypted key has address %x, file says %s", addr, stored)
+		}
+	}
 
 	return &Key{
 		Id:         uuid.UUID(keyId),
-		Address:    crypto.PubkeyToAddress(key.PubKey()),
+		Address:    addr,
 		PrivateKey: key,
 	}, nil
 }
